@@ -25,6 +25,7 @@ type Obligation struct {
 	Props    []string
 	Func     string
 	Clause   string
+	CoverUndecided bool
 }
 
 func (o *Obligation) Backends() string {
@@ -87,12 +88,27 @@ func groupObligations(vs []Verdict) map[string]*Obligation {
 			}
 		}
 		if v.Q.Cover {
-			if v.Result != "sat" {
-				o.OK = false
-			}
+			continue
 		} else if v.Result != "unsat" {
 			o.OK = false
 		}
+	}
+	// a cover obligation holds if any of its queries is satisfiable; it is refuted only if all are unsat
+	for _, o := range obs {
+		if len(o.Verdicts) == 0 || !o.Verdicts[0].Q.Cover {
+			continue
+		}
+		anySat, allUnsat := false, true
+		for _, v := range o.Verdicts {
+			if v.Result == "sat" {
+				anySat = true
+			}
+			if v.Result != "unsat" {
+				allUnsat = false
+			}
+		}
+		o.OK = anySat || !allUnsat
+		o.CoverUndecided = !anySat && !allUnsat
 	}
 	return obs
 }
